@@ -8,7 +8,7 @@ use std::collections::{BTreeMap, HashMap};
 use std::ops::Range;
 use std::panic::{self, AssertUnwindSafe};
 use std::sync::atomic::{AtomicBool, AtomicU64, Ordering};
-use std::sync::{Arc, Mutex};
+use std::sync::Mutex;
 use std::time::{Duration, Instant};
 
 // ------------------------------------------------------------------------------------------------
@@ -288,10 +288,6 @@ impl Rec {
     pub fn bin(&mut self, name: &'static str) {
         *self.bins.entry(name).or_insert(0) += 1;
     }
-    #[inline]
-    pub fn bin_n(&mut self, name: &'static str, n: u64) {
-        *self.bins.entry(name).or_insert(0) += n;
-    }
     pub fn bin_s(&mut self, name: String) {
         *self.bins_dyn.entry(name).or_insert(0) += 1;
     }
@@ -407,15 +403,8 @@ impl<'a> Workload<'a> {
     }
 }
 
-pub struct Stuck {
-    pub workload: String,
-    pub idx: u64,
-    pub secs: u64,
-}
-
 pub struct RunOutput {
     pub rec: Rec,
-    pub stuck: Option<Stuck>,
     pub workloads: Vec<(String, u64, f64)>,
 }
 
@@ -426,7 +415,6 @@ pub const STUCK_SECS: u64 = 30;
 pub fn run_workloads(ctx: &Ctx, workloads: Vec<Workload>) -> RunOutput {
     let mut total = Rec::default();
     let mut stats = Vec::new();
-    let mut stuck_out: Option<Stuck> = None;
 
     for wl in workloads.iter() {
         let t0 = Instant::now();
@@ -457,7 +445,6 @@ pub fn run_workloads(ctx: &Ctx, workloads: Vec<Workload>) -> RunOutput {
         let beats: Vec<(AtomicU64, AtomicU64, AtomicBool)> =
             (0..nworkers).map(|_| (AtomicU64::new(0), AtomicU64::new(0), AtomicBool::new(false))).collect();
         let done = AtomicBool::new(false);
-        let stuck: Mutex<Option<Stuck>> = Mutex::new(None);
         let recs: Mutex<Vec<Rec>> = Mutex::new(Vec::new());
         let start = Instant::now();
 
@@ -511,7 +498,6 @@ pub fn run_workloads(ctx: &Ctx, workloads: Vec<Workload>) -> RunOutput {
             };
             let beats = &beats;
             let done = &done;
-            let stuck = &stuck;
             let recs = &recs;
             let wlname = wl.name;
             s.spawn(move || loop {
@@ -525,9 +511,8 @@ pub fn run_workloads(ctx: &Ctx, workloads: Vec<Workload>) -> RunOutput {
                         let t = b.1.load(Ordering::Relaxed);
                         if now > t + budget_ms {
                             let idx = b.0.load(Ordering::Relaxed);
-                            *stuck.lock().unwrap() =
-                                Some(Stuck { workload: wlname.to_string(), idx, secs: (now - t) / 1000 });
-                            // A stuck worker cannot be cancelled: report and leave the process.
+                            // A stuck worker cannot be cancelled: report and leave the process
+                            // (the driver re-runs that one case alone under a generous limit).
                             emit_stuck_and_exit(wlname, idx, (now - t) / 1000);
                         }
                     }
@@ -536,27 +521,15 @@ pub fn run_workloads(ctx: &Ctx, workloads: Vec<Workload>) -> RunOutput {
             // scope joins workers; the watchdog exits once all recs are in
         });
         done.store(true, Ordering::Relaxed);
-        if let Some(st) = stuck.into_inner().unwrap() {
-            stuck_out = Some(st);
-        }
         for r in recs.into_inner().unwrap() {
             total.merge(r);
         }
         stats.push((wl.name.to_string(), wl.count, t0.elapsed().as_secs_f64()));
     }
-    RunOutput { rec: total, stuck: stuck_out, workloads: stats }
-}
-
-static STUCK_SINK: Mutex<Option<Arc<dyn Fn(&str, u64, u64) + Send + Sync>>> = Mutex::new(None);
-
-pub fn set_stuck_sink(f: Arc<dyn Fn(&str, u64, u64) + Send + Sync>) {
-    *STUCK_SINK.lock().unwrap() = Some(f);
+    RunOutput { rec: total, workloads: stats }
 }
 
 fn emit_stuck_and_exit(workload: &str, idx: u64, secs: u64) -> ! {
-    if let Some(f) = STUCK_SINK.lock().unwrap().as_ref() {
-        f(workload, idx, secs);
-    }
     println!("STUCK workload={} idx={} secs={}", workload, idx, secs);
     std::process::exit(3);
 }
